@@ -643,6 +643,16 @@ func resolveAll(v ssa.Value, throughPhi bool) []ssa.Value {
 						return
 					}
 				}
+				// a field of a per-call "method object" (the locals of a long function parked in a small struct whose
+				// methods are its phases): what any phase stored there
+				if fa, ok := base.(*ssa.FieldAddr); ok {
+					if vals := methodObjectField(fa); len(vals) > 0 {
+						for _, sv := range vals {
+							walk(sv)
+						}
+						return
+					}
+				}
 			}
 			out = append(out, v)
 		default:
@@ -1078,4 +1088,186 @@ func soleDynamicType(p *Prog, iface *types.Named) types.Type {
 	}
 	soleDynCache[iface] = found
 	return found
+}
+
+// ---------------------------------------------------------------------------
+// method objects
+
+type methodObjInfo struct {
+	ok     bool
+	stores map[int][]ssa.Value
+}
+
+var methodObjCache = map[*types.Named]*methodObjInfo{}
+
+// methodObjectField: fa addresses field f of a value of a method-object type; it returns everything stored into f
+// anywhere in the module (flow-insensitive), or nil when the type is not a method object.
+//
+// A method-object type is an unexported struct type of the module every instance of which is allocated by a
+// composite literal in one function (its driver) and used only as the receiver of its own methods and through its
+// fields: it is never stored into another object, returned, sent, captured by a goroutine other than through a
+// method call, or handed to a function that is not one of its methods. Such an object lives for one call of its
+// driver; its fields are that call's locals.
+func methodObjectField(fa *ssa.FieldAddr) []ssa.Value {
+	p := CurrentProg
+	if p == nil {
+		return nil
+	}
+	named, ok := Deref(fa.X.Type()).(*types.Named)
+	if !ok || named.Obj().Pkg() == nil || named.Obj().Exported() || !strings.HasPrefix(named.Obj().Pkg().Path(), ModulePath) {
+		return nil
+	}
+	if _, isStruct := named.Underlying().(*types.Struct); !isStruct {
+		return nil
+	}
+	info, seen := methodObjCache[named]
+	if !seen {
+		info = analyseMethodObject(p, named)
+		methodObjCache[named] = info
+	}
+	if !info.ok {
+		return nil
+	}
+	return info.stores[fa.Field]
+}
+
+func analyseMethodObject(p *Prog, named *types.Named) *methodObjInfo {
+	info := &methodObjInfo{stores: map[int][]ssa.Value{}}
+	isT := func(t types.Type) bool { return Deref(t) == types.Type(named) }
+	var driver *ssa.Function
+	nAlloc := 0
+	ok := true
+	isMethodOfT := func(f *ssa.Function) bool {
+		return f != nil && f.Signature.Recv() != nil && isT(f.Signature.Recv().Type())
+	}
+	// uses of a *T value: allowed are field addressing, method calls on it, loads/stores of its fields, nil tests, φ
+	var usesOK func(v ssa.Value, depth int) bool
+	usesOK = func(v ssa.Value, depth int) bool {
+		if v.Referrers() == nil || depth > 6 {
+			return depth <= 6
+		}
+		for _, r := range *v.Referrers() {
+			switch x := r.(type) {
+			case *ssa.FieldAddr, *ssa.DebugRef, *ssa.BinOp, *ssa.If:
+			case *ssa.Phi:
+				if !usesOK(x, depth+1) {
+					return false
+				}
+			case *ssa.Store:
+				// storing the pointer itself somewhere: only into a local cell of the same function
+				if x.Val == v {
+					cell, isCell := x.Addr.(*ssa.Alloc)
+					if !isCell || !usesOK(cell, depth+1) {
+						return false
+					}
+				}
+			case *ssa.UnOp:
+				// a load of the cell that holds the pointer
+				if x.Op == token.MUL && isT(x.Type()) {
+					if _, isPtr := x.Type().(*types.Pointer); isPtr && !usesOK(x, depth+1) {
+						return false
+					}
+				}
+			case ssa.CallInstruction:
+				cc := x.Common()
+				if cc.IsInvoke() {
+					return false
+				}
+				callee := cc.StaticCallee()
+				if mc, isMC := cc.Value.(*ssa.MakeClosure); isMC {
+					callee, _ = mc.Fn.(*ssa.Function)
+				}
+				recvOnly := isMethodOfT(callee) && len(cc.Args) > 0 && cc.Args[0] == v
+				for i, a := range cc.Args {
+					if a == v && !(recvOnly && i == 0) {
+						return false
+					}
+				}
+				if !recvOnly {
+					// (v may be the function value of a bound method: x.m as a value)
+					if cc.Value == v {
+						return false
+					}
+				}
+			case *ssa.MakeClosure:
+				// a bound method value or a closure capturing the object: the closure must be one of T's methods' thunks
+				fn, _ := x.Fn.(*ssa.Function)
+				if fn == nil || !(isMethodOfT(p.Unwrap(fn)) || fn.Parent() != nil && isMethodOfT(Outer(fn))) {
+					return false
+				}
+			default:
+				return false
+			}
+		}
+		return true
+	}
+	for _, fn := range p.Funcs {
+		if !InModule(fn) || fn.Blocks == nil {
+			continue
+		}
+		EachInstr(fn, func(in ssa.Instruction) {
+			switch x := in.(type) {
+			case *ssa.Alloc:
+				if Deref(x.Type()) == types.Type(named) {
+					nAlloc++
+					if driver != nil && driver != fn {
+						ok = false
+					}
+					driver = fn
+					if !usesOK(x, 0) {
+						ok = false
+					}
+				}
+			case *ssa.Store:
+				if fa, isFA := x.Addr.(*ssa.FieldAddr); isFA && isT(fa.X.Type()) {
+					info.stores[fa.Field] = append(info.stores[fa.Field], x.Val)
+				}
+			}
+		})
+		// the receiver inside T's methods obeys the same discipline
+		if isMethodOfT(fn) && len(fn.Params) > 0 {
+			if !usesOK(fn.Params[0], 0) {
+				ok = false
+			}
+		}
+	}
+	// globals or fields of that type elsewhere
+	for _, pkg := range p.SSA.AllPackages() {
+		if pkg.Pkg == nil || !strings.HasPrefix(pkg.Pkg.Path(), ModulePath) {
+			continue
+		}
+		for _, m := range pkg.Members {
+			if g, isG := m.(*ssa.Global); isG && isT(Deref(g.Type())) {
+				ok = false
+			}
+		}
+	}
+	info.ok = ok && nAlloc >= 1 && driver != nil && !isMethodOfT(driver)
+	return info
+}
+
+// MethodObjectLoads: fa addresses a field of a method object (see methodObjectField); it returns the loads of that
+// field anywhere in the module, or nil when the type is not a method object.
+func MethodObjectLoads(fa *ssa.FieldAddr) []ssa.Value {
+	if methodObjectField(fa) == nil {
+		return nil
+	}
+	named, _ := Deref(fa.X.Type()).(*types.Named)
+	var out []ssa.Value
+	for _, fn := range CurrentProg.Funcs {
+		if !InModule(fn) || fn.Blocks == nil {
+			continue
+		}
+		EachInstr(fn, func(in ssa.Instruction) {
+			u, ok := in.(*ssa.UnOp)
+			if !ok || u.Op != token.MUL {
+				return
+			}
+			f2, ok := u.X.(*ssa.FieldAddr)
+			if ok && f2.Field == fa.Field && Deref(f2.X.Type()) == types.Type(named) {
+				out = append(out, u)
+			}
+		})
+	}
+	return out
 }
